@@ -270,6 +270,15 @@ Definition check_C07_group (x : gctx) (calls : list call) : bool :=
                   tainted
         else true).
 
+(* C10, "can be tainted and untainted like any other node": when the scan buys capacity, every PROTECTED tainted node of the
+   view had been tried for untainting first (the part of C07's reuse rule that speaks about annotated nodes) *)
+Definition check_C10_reuse (x : gctx) (calls : list call) : bool :=
+  if x_dry x then true
+  else if existsb is_cloud_increase calls
+       then forallb (fun n => if safe_from_deletion n && negb (has_force n)
+                              then mem_id (n_name n) (got_names (calls_before_increase calls)) else true) (c_tainted (x_cls x))
+       else true.
+
 (* ---------- C08 ---------- *)
 Definition check_C08_group (x : gctx) (calls : list call) : bool :=
   if x_dry x then true
